@@ -199,7 +199,9 @@ mod verif_c19 {
 def plan(tier, seed):
     p = Plan()
     p.modules.append(("src/lib.rs", MOD))
-    mk = lambda n, obl, sym, covers, to=900, **kw: dict(name=n, family="c19", obligation=obl, sym=sym, covers=covers, timeout=to, mem_gb=12, replay=None, **kw)
+    def rp(ctx, spec, f):
+        return native.replay_native(ctx, "matrix", [])
+    mk = lambda n, obl, sym, covers, to=900, **kw: dict(name=n, family="c19", obligation=obl, sym=sym, covers=covers, timeout=to, mem_gb=12, replay=rp, **kw)
     hs = [mk("k_c19_transpose_identity_f32", "transpose is an exact involution and swaps indices; M*identity() == identity()*M == M; accessors consistent", "9 entries: every f32 in [-2,2]", [])]
     for r in range(3):
         hs.append(mk("k_c19_mulvec_row%d_f32" % r, "mul_arr equals the exact product; mul_vec and the column of mul_mat agree with it bit for bit (lhs row %d symbolic)" % r,
